@@ -45,7 +45,7 @@ class ApiGen:
         for _ in range(4 + r.below(10)):
             k = r.weighted([('ok', 6), ('probe', 5), ('rterr', 3), ('parse', 2), ('pp', 2), ('type', 1), ('loop', 2), ('spawn', 1),
                             ('ppcall', 1), ('transpile', 1), ('status', 3), ('cfg', 2), ('new', 2), ('del', 1), ('bad', 1), ('long', 2),
-                            ('throw', 1), ('caught', 1), ('spawnfail', 2), ('evalcall', 3), ('exitcall', 1)])
+                            ('throw', 1), ('caught', 1), ('spawnfail', 2), ('evalcall', 3), ('exitcall', 1), ('macro', 4), ('asmbad', 2)])
             if not inst and k not in ('new', 'bad'):
                 k = 'new'
             self.note(k)
@@ -128,6 +128,25 @@ class ApiGen:
                     rc = None
                 if rc is not None:
                     rc = -6
+            elif k == 'macro':
+                # macros live for one call: what a text defines is unknown to the next text on the same instance
+                form = r.below(3)
+                if form == 0:
+                    g = r.choice(GLOBALS)
+                    code = '#define LIMIT %d\n%s = LIMIT' % (1 + r.below(8), g)
+                    I['globals'].add(g)
+                elif form == 1:
+                    g = r.choice(GLOBALS)
+                    code = '#ifdef LIMIT\n%s\n#endif\n%s = 1' % (ERR, g)
+                    I['globals'].add(g)
+                else:
+                    code = '#ifndef LIMIT\nga = 2\n#else\n%s\n#endif' % ERR
+                    I['globals'].add('ga')
+            elif k == 'asmbad':
+                # an assembly text the assembly parser rejects: -3, its diagnostic tagged with this instance and this call
+                ty = 'a'
+                code = r.choice(['push 1 push', 'callBinary', 'push'])
+                rc = -3
             elif k == 'evalcall':
                 # an expression evaluated while the text is preprocessed: it runs under this call, not under the exit
                 # request or the time budget a previous call left behind
